@@ -3,6 +3,7 @@ package rules
 import (
 	"fmt"
 	"go/ast"
+	"go/constant"
 	"go/token"
 	"go/types"
 	"sort"
@@ -136,7 +137,7 @@ func RuleT1(c *Ctx) {
 }
 
 func (c *Ctx) ruleT1Rec() {
-	sc := c.Run.Begin("T1r", "every recursive call cycle (VTA call graph, closures and library iterators included) descends a finite tree, is guarded by a visited/on-stack set, or is the scanner's same-byte dispatch bounded by S1e", 2)
+	sc := c.Run.Begin("T1r", "every recursive call cycle (VTA call graph, closures and library iterators included) descends a finite tree, is guarded by a visited/on-stack set, or is the scanner's same-byte dispatch bounded by S1e", 1)
 	defer sc.End()
 	cg := c.P.CallGraph()
 	m, pds, merr := c.Machine()
@@ -893,7 +894,7 @@ func (c *Ctx) callersLookedUpMark(pk *pkgT, decl *ast.FuncDecl, cf *cfgx.Func, c
 // ---------------------------------------------------------------- T1: loops
 
 func (c *Ctx) ruleT1Loops() {
-	sc := c.Run.Begin("T1l", "every for-loop that is not a range or a plain counted loop makes progress on every iteration: pointer-chain walk, shrinking slice, monotone index, lexeme/scanner worklist", 2)
+	sc := c.Run.Begin("T1l", "every for-loop that is not a range or a plain counted loop makes progress on every iteration: pointer-chain walk, shrinking slice, monotone index, lexeme/scanner worklist", 1)
 	defer sc.End()
 	next := c.Func("scanner", "Scanner.Next")
 	stackPop := c.Func("scanner", "Stack.Pop")
@@ -1068,6 +1069,15 @@ func isRemoval(info *types.Info, as *ast.AssignStmt) bool {
 	if s1.Low != nil || s1.High == nil || s2.High != nil || s2.Low == nil {
 		return false
 	}
+	// constants: S[:k] and S[k+1:]
+	if hv, ok := info.Types[s1.High]; ok && hv.Value != nil {
+		if lv, ok := info.Types[s2.Low]; ok && lv.Value != nil {
+			h, ok1 := constant.Int64Val(constant.ToInt(hv.Value))
+			l, ok2 := constant.Int64Val(constant.ToInt(lv.Value))
+			return ok1 && ok2 && l == h+1
+		}
+		return false
+	}
 	// S[i+1:] with the same i as S[:i]
 	be, ok := ast.Unparen(s2.Low).(*ast.BinaryExpr)
 	if !ok || be.Op != token.ADD || !cfgx.SameExpr(info, be.X, s1.High) {
@@ -1075,6 +1085,36 @@ func isRemoval(info *types.Info, as *ast.AssignStmt) bool {
 	}
 	tv, ok := info.Types[be.Y]
 	return ok && tv.Value != nil && tv.Value.ExactString() == "1"
+}
+
+// isShrink: X = X[:len(X)-k] (the length possibly held in a local) or X = X[k:], k >= 1.
+func isShrink(info *types.Info, cf *cfgx.Func, as *ast.AssignStmt) bool {
+	if len(as.Lhs) != 1 || len(as.Rhs) != 1 || as.Tok != token.ASSIGN {
+		return false
+	}
+	sl, ok := ast.Unparen(as.Rhs[0]).(*ast.SliceExpr)
+	if !ok || !cfgx.SameExpr(info, sl.X, as.Lhs[0]) {
+		return false
+	}
+	pos := func(e ast.Expr) bool {
+		tv, ok := info.Types[e]
+		if !ok || tv.Value == nil {
+			return false
+		}
+		v, ok := constant.Int64Val(constant.ToInt(tv.Value))
+		return ok && v >= 1
+	}
+	if sl.Low != nil && sl.High == nil {
+		return pos(sl.Low)
+	}
+	if sl.Low == nil && sl.High != nil {
+		if be, ok := ast.Unparen(sl.High).(*ast.BinaryExpr); ok && be.Op == token.SUB && pos(be.Y) {
+			if lo, isLen := lengthExpr(info, cf.Resolve(be.X)); isLen && cfgx.SameExpr(info, lo, as.Lhs[0]) {
+				return true
+			}
+		}
+	}
+	return false
 }
 
 // loopProgress: every path around the loop executes a progress statement.
@@ -1131,8 +1171,9 @@ func (c *Ctx) loopProgress(pk *pkgT, cf *cfgx.Func, fs *ast.ForStmt, next, stack
 				// a helper whose body unconditionally removes an element of a slice field
 				if callee != nil {
 					if hd := c.P.Decl(callee); hd != nil && c.P.PkgOfDecl(hd) == pk {
+						hcf := c.CFG(pk, hd.Body)
 						for _, st := range hd.Body.List {
-							if as, ok := st.(*ast.AssignStmt); ok && isRemoval(info, as) {
+							if as, ok := st.(*ast.AssignStmt); ok && (isRemoval(info, as) || isShrink(info, hcf, as)) {
 								kinds["element removal via "+callee.Name()+"()"] = true
 								res = true
 							}
